@@ -229,11 +229,13 @@ func runC19(r *Runner, tier string, rng *Rng) {
 		}
 		feat := kd.kind + fmt.Sprint(kd.param) + ":" + form
 		// corrupted / truncated / encrypted / foreign blocks
+		armored := true // the text starts with one complete BEGIN…END block (whatever is inside)
 		switch rng.Intn(14) {
 		case 0:
 			text = text[:len(text)/2]
 			modelForm = "bad"
 			feat += ":truncated"
+			armored = false
 		case 1:
 			b := []byte(text)
 			mid := len(b) / 2
@@ -266,19 +268,33 @@ func runC19(r *Runner, tier string, rng *Rng) {
 			text = "no pem here"
 			modelForm = "bad"
 			feat += ":nopem"
+			armored = false
 		case 5:
 			text = ""
 			modelForm = "bad"
 			feat += ":empty"
+			armored = false
 		}
 		// decoration: surrounding whitespace and trailing data are ignored by the PEM decoder
-		switch rng.Intn(5) {
+		switch rng.Intn(7) {
 		case 0:
 			text = "\n\n" + text + "\n  \n\n"
 		case 1:
 			text = text + "trailing garbage\n" + text
 		case 2:
 			text = "# comment line\n" + text
+		case 3, 4:
+			// the trailing data is ANOTHER, perfectly loadable key: the FIRST block decides - a good
+			// first block is loaded, a first block that is not a loadable key is refused, whatever
+			// follows (seeded change c19-skips-unparseable-first-block)
+			if armored {
+				ok2 := kinds[rng.Intn(len(kinds))]
+				priv2, pub2 := freshKey(rng, ok2.kind, ok2.param)
+				if t2, ok := encodeForm(ok2.kind, rng.Pick([]string{"pkcs8", "pkix"}), priv2, pub2); ok {
+					text = text + t2
+					feat += ":then-other-key"
+				}
+			}
 		}
 		var scheme any
 		var algs any
